@@ -91,6 +91,10 @@ class Fn:
         self.bools = {}      # var decl id -> local number
         self.loopv = {}      # var decl id -> loop var number
         self.litinit = {}    # var decl id -> literal int value currently known syntactically
+        self.status = {}     # int local assigned from a GSL `_e` call -> local number (shares the numbering of self.bools)
+        self.next_local = 0
+        self.gsl_calls = []  # (callee name, C text of the arguments or None) for every `_e` call, in order
+        self.assigns = {}
         self.vardecls = {}
         self.body = [c for c in kids(decl) if c.get('kind') == 'CompoundStmt'][0]
         self.classify_locals()
@@ -164,6 +168,63 @@ class Fn:
             return c['referencedDecl']['name']
         return None
 
+
+    # ------------------------------------------------------------ GSL `_e` routines (status-returning)
+    def e_callee(self, n):
+        """name of the GSL routine if n is a call `gsl_…_e(…)` (returns an int status), else None"""
+        c = self.callee(n)
+        if c and re.match(r'gsl_\w+_e$', c):
+            return c
+        return None
+
+    def new_local(self):
+        k = self.next_local
+        self.next_local += 1
+        return k
+
+    def arg_c(self, n, depth=0):
+        """C text of a call argument in terms of `ra[]` (to call the same GSL routine directly from the harness), or None"""
+        if depth > 6:
+            return None
+        k = n.get('kind')
+        ks = kids(n)
+        if k in ('ImplicitCastExpr', 'ParenExpr', 'ConstantExpr') and len(ks) == 1:
+            return self.arg_c(ks[0], depth + 1)
+        if k in ('CStyleCastExpr', 'CXXStaticCastExpr') and len(ks) == 1:
+            q = n['type']['qualType']
+            inner = self.arg_c(ks[0], depth + 1)
+            return None if inner is None or q not in ('int', 'unsigned int', 'double') else '(%s)(%s)' % (q, inner)
+        if k == 'IntegerLiteral':
+            return n['value']
+        if k == 'FloatingLiteral':
+            return n['value']
+        if k == 'ArraySubscriptExpr' and self.al_member(ks[0]) == 'ra' and strip(ks[1]).get('kind') == 'IntegerLiteral':
+            return 'ra[%s]' % strip(ks[1])['value']
+        if k == 'UnaryOperator' and n.get('opcode') == '&':
+            t = strip(ks[0])
+            if t.get('kind') == 'DeclRefExpr' and t['referencedDecl'].get('kind') == 'VarDecl' and \
+                    self.vardecls.get(t['referencedDecl']['id'], {}).get('type', {}).get('qualType') == 'gsl_sf_result':
+                return 'r_'
+            return None
+        if k == 'DeclRefExpr':
+            rd = n.get('referencedDecl', {})
+            if rd.get('kind') == 'EnumConstantDecl':
+                return rd['name']
+            if rd.get('kind') == 'VarDecl' and rd['id'] in self.vardecls:
+                src = [a for a in self.assigns.get(rd['id'], []) if not (strip(a).get('kind') in ('IntegerLiteral', 'FloatingLiteral') and float(strip(a)['value']) == 0)]
+                if len(src) == 1:
+                    return self.arg_c(src[0], depth + 1)
+            return None
+        return None
+
+    def note_gsl_call(self, n):
+        n = strip(n)
+        args = [self.arg_c(a) for a in kids(n)[1:]]
+        self.gsl_calls.append((self.callee(n), None if any(a is None for a in args) else ', '.join(args)))
+        for a in kids(n)[1:]:
+            if self.scan(a):
+                self.err('argument of a GSL call assigns derivs/hes', n)
+
     # ------------------------------------------------------------ locals
     def walk(self, n):
         yield n
@@ -203,10 +264,9 @@ class Fn:
                     b = self.al_member(init[0])
                     if b in ('derivs', 'hes'):
                         self.alias[n['id']] = 'd' if b == 'derivs' else 'h'
-                if q in ('int', 'unsigned int', 'bool'):
-                    assigns.setdefault(n['id'], [])
-                    if init:
-                        assigns[n['id']].append(init[0])
+                assigns.setdefault(n['id'], [])
+                if init and init[0].get('kind') != 'InitListExpr' and n['id'] not in self.alias:
+                    assigns[n['id']].append(init[0])
             elif k == 'BinaryOperator' and n.get('opcode') == '=':
                 rid = self.ref_id(kids(n)[0])
                 if rid is not None:
@@ -228,9 +288,16 @@ class Fn:
                 if not all(self.pure_cond(r, cands) for r in assigns[v]):
                     cands.discard(v)
                     changed = True
+        self.assigns = assigns
         for v in sorted(cands, key=lambda i: int(i, 16)):
             if any(strip(r).get('kind') != 'IntegerLiteral' for r in assigns[v]):
-                self.bools[v] = len(self.bools)
+                self.bools[v] = self.new_local()
+        for v in sorted(assigns, key=lambda i: int(i, 16)):
+            if v in self.vardecls and v not in spoiled and self.vardecls[v]['type']['qualType'] == 'int':
+                calls = [r for r in assigns[v] if self.e_callee(r)]
+                rest = [r for r in assigns[v] if not self.e_callee(r) and strip(r).get('kind') != 'IntegerLiteral']
+                if len(calls) == 1 and not rest:
+                    self.status[v] = self.new_local()
 
     # ------------------------------------------------------------ expressions
     def scan(self, n):
@@ -296,6 +363,10 @@ class Fn:
             cal = self.callee(n)
             if cal in self.tr.al_functions:
                 self.err('call of %s in a position the skeleton language cannot express' % cal, n)
+            if self.e_callee(n):
+                # a status-returning GSL routine whose status is not tested in a recognised way
+                self.note_gsl_call(n)
+                return ['Stmt.eval (Cond.gsl %d)' % self.new_local()]
             out = []
             for c in ks:
                 out += self.scan(c)
@@ -360,6 +431,20 @@ class Fn:
             return 'Cond.lb %d' % self.bools[n['referencedDecl']['id']]
         if k == 'CallExpr' and self.callee(n) in CHECKERS:
             return 'Cond.chk (%s)' % self.chk(n)
+        if k == 'CallExpr' and self.e_callee(n):
+            self.note_gsl_call(n)
+            return 'Cond.gsl %d' % self.new_local()       # `if (gsl_…_e(…))`: non-zero status
+        if k == 'DeclRefExpr' and n.get('referencedDecl', {}).get('id') in self.status:
+            return 'Cond.lb %d' % self.status[n['referencedDecl']['id']]
+        if k == 'BinaryOperator' and n.get('opcode') in ('!=', '=='):
+            for x, y in ((ks[0], ks[1]), (ks[1], ks[0])):
+                sid = self.ref_id(x)
+                yy = strip(y)
+                is_success = (yy.get('kind') == 'DeclRefExpr' and yy.get('referencedDecl', {}).get('name') == 'GSL_SUCCESS') or \
+                             (yy.get('kind') == 'IntegerLiteral' and yy['value'] == '0')
+                if sid in self.status and is_success:
+                    t = 'Cond.lb %d' % self.status[sid]      # status != GSL_SUCCESS, as written
+                    return t if n['opcode'] == '!=' else 'Cond.not (%s)' % t
         if self.scan(n):
             self.err('assignment to derivs/hes inside a condition', n)
         return 'Cond.opq'
@@ -388,6 +473,9 @@ class Fn:
             return ERRSET[cal]
         if cal in CHECKERS:
             return 'Stmt.eval (Cond.chk (%s))' % self.chk(s)
+        if k == 'BinaryOperator' and s.get('opcode') == '=' and self.ref_id(kids(s)[0]) in self.status and self.e_callee(kids(s)[1]):
+            self.note_gsl_call(kids(s)[1])
+            return 'Stmt.eval (Cond.gsl %d)' % self.status[self.ref_id(kids(s)[0])]
         if k == 'BinaryOperator' and s.get('opcode') == '=':
             rid = self.ref_id(kids(s)[0])
             if rid in self.bools:
@@ -486,6 +574,14 @@ class Fn:
                 args = kids(e)[1:]
                 if not self.is_al(args[0]):
                     self.err('check_result not called on `al`', n)
+                v = strip(args[1])
+                if v.get('kind') == 'ConditionalOperator':
+                    c0, a0, b0 = kids(v)
+                    nanlit = strip(a0)
+                    is_nan = nanlit.get('kind') == 'CallExpr' and (self.callee(nanlit) or '').startswith('__builtin_nan')
+                    if self.e_callee(c0) and is_nan and not self.scan(b0):
+                        self.note_gsl_call(c0)
+                        return 'Stmt.ite (Cond.gsl %d) (Stmt.retCheckNaN) (Stmt.retCheck)' % self.new_local()
                 if self.scan(args[1]):
                     self.err('assignment to derivs/hes inside the argument of check_result', n)
                 return 'Stmt.retCheck'
@@ -534,6 +630,7 @@ class Translator:
                                if not n.startswith('amplgsl_') and n not in PRIMS}
         self.cache = {}
         self.active = []
+        self.gsl_calls = {}
 
     def body_of(self, name):
         if name in self.cache:
@@ -541,9 +638,11 @@ class Translator:
         if name in self.active:
             raise TranslateError('recursive helper %s' % name)
         self.active.append(name)
-        t = Fn(self, self.decls[name]).translate()
+        fn = Fn(self, self.decls[name])
+        t = fn.translate()
         self.active.pop()
         self.cache[name] = t
+        self.gsl_calls[name] = fn.gsl_calls
         return t
 
     def fingerprints(self):
@@ -684,7 +783,23 @@ def main(argv):
         if old != text:
             os.makedirs(os.path.dirname(out), exist_ok=True)
             open(out, 'w').write(text)
-    meta = {'registered': [[a, c, t, n] for a, c, t, n in regs], 'handler_off_first': handler_off,
+    # bindings that wrap exactly one status-returning GSL routine: C++ table so that the harness can call the
+    # same routine directly with the same arguments (value oracle independent of the binding)
+    direct = ['// GENERATED by translators/tr_gsl.py: the GSL `_e` routine each binding wraps, callable on a plain argument vector',
+              '#include <gsl/gsl_sf.h>', '#include <gsl/gsl_errno.h>', 'struct DirectGsl { const char *ampl; const char *gsl; int (*f)(const double *, gsl_sf_result *); };']
+    rows, ndirect = [], 0
+    for ampl, cfn, ty, nargs in regs:
+        calls = tr.gsl_calls.get(cfn) or []
+        if len(calls) == 1 and calls[0][1] is not None and done.get(cfn):
+            direct.append('static int direct_%d(const double *ra, gsl_sf_result *r_) { (void)ra; return %s(%s); }' % (ndirect, calls[0][0], calls[0][1]))
+            rows.append('  {"%s", "%s", direct_%d},' % (ampl, calls[0][0], ndirect))
+            ndirect += 1
+    direct += ['static const DirectGsl DIRECT_GSL[] = {'] + rows + ['  {0, 0, 0}', '};']
+    dtext = '\n'.join(direct) + '\n'
+    dpath = os.path.join(work, 'gsl_direct.inc')
+    if not os.path.exists(dpath) or open(dpath).read() != dtext:
+        open(dpath, 'w').write(dtext)
+    meta = {'gsl_calls': {k: v for k, v in tr.gsl_calls.items() if v}, 'direct_table_entries': ndirect, 'registered': [[a, c, t, n] for a, c, t, n in regs], 'handler_off_first': handler_off,
             'fingerprints': fps, 'problems': problems, 'functions_translated': sum(1 for t in done.values() if t)}
     json.dump(meta, open(os.path.join(work, 'gsl_skel_meta.json'), 'w'), indent=1)
     print('tr_gsl: %d registrations (%d string-valued), %d skeletons, handler_off_first=%s, problems=%s' %
